@@ -21,7 +21,7 @@ RULE = ("(a) header/frame codec: every 12-bit origin and destination, ids incl. 
         "of the reference frames and a True result requires that the receiver accepted all of "
         "them. Non-trivial: bytes were compared; distinct = distinct (part, length, type, "
         "field class).")
-RULE += (" Later rounds added: traffic_direct writes, one-character string types, re-used and re-addressed headers, loop-back frames, kept bytearray messages re-sent with frames received in between, outages at a chosen fragment, kept buffers edited in place before being sent again, frames forwarded to a child after a completed or an abandoned fragment train.")
+RULE += (" Later rounds added: traffic_direct writes, one-character string types, re-used and re-addressed headers, loop-back frames, kept bytearray messages re-sent with frames received in between, outages at a chosen fragment, kept buffers edited in place before being sent again, frames forwarded to a child after a completed or an abandoned fragment train, caller-set reserved bytes, the radio's read-only accessors used between messages.")
 REQUIRED = {"pack_bytes": 10000, "unpack_roundtrip": 10000, "short_buffer_refused": 50,
             "onair_frames_vs_reference": 200, "tmrh_reassembly": 200, "caller_header_type": 200,
             "caller_header_type_routed": 10, "session_frames_vs_reference": 1000,
@@ -152,10 +152,19 @@ def run_session(ctx, case):
                     msg_obj[:] = msg
             else:
                 msg_obj = bytearray(msg) if mm.get("bytearray") else msg
+            if (case["seed"] >> (j + 9)) & 1:
+                # the application looks at the radio's settings through the node's read-only
+                # accessors between two messages
+                pp = (case["seed"] >> 5) % 6
+                (obj.get_dynamic_payloads(), obj.get_dynamic_payloads(pp), obj.channel, obj.pa_level, obj.data_rate,
+                 obj.crc, obj.get_auto_retries(), obj.last_tx_arc, obj.address(pp), obj.listen, obj.power,
+                 obj.is_lna_enabled)
+                ctx.count("sessions_reading_radio_settings_between_messages")
             st["cur"], st["seen"] = j, []
             air0, ack0 = len(rig.air.log), len(ph.acked)
             node.deadline = node.t + 4000 * W.MS
             hdr = None
+            resv = 0
             try:
                 if how == "multicast":
                     ret = obj.multicast(msg, t, 2)
@@ -195,6 +204,10 @@ def run_session(ctx, case):
                 else:
                     hdr = prev if (mm["reuse"] and prev is not None) else Hdr(to, t)
                     hdr.to_node, hdr.message_type = to, t
+                    # the reserved byte is the caller's too (a header taken from a received frame
+                    # and re-used for the answer holds whatever arrived in it)
+                    resv = [0, 0, 0, 1, 7, 0xFF, 5, 0x94][(case["seed"] >> (3 * (j % 6))) % 8]
+                    hdr.reserved = resv
                     fid = hdr.frame_id
                     ret = obj.send(hdr, msg_obj) if how == "send" else obj.write(Frame(hdr, msg_obj))
             except W.VirtualDeadline:
@@ -247,7 +260,7 @@ def run_session(ctx, case):
                 ", outage %r" % out if out and out["msg"] == j else "")
             pk = [p for p in rig.air.log[air0:] if p.kind == "data"]
             distinct = _collapse([bytes(p.payload) for p in pk])
-            want = net_ref.fragment(me, to, fid, t, msg)
+            want = net_ref.fragment(me, to, fid, t, msg, resv if how in ("send", "write") else 0)
             hit = out is not None and out["msg"] == j
             ctx.clause("session_frames_vs_reference")
             if (not hit and distinct != want) or (hit and distinct != want[:len(distinct)]):
